@@ -9,26 +9,26 @@ namespace Fcppt.C03
 
 /-! ## one-step unfolding equations (the fuel on the left is a successor, the recursive calls use its predecessor) -/
 
-theorem parse_arg_eq (f : Nat) (l : String) (ty : VTy) (st : List Arg) (c : Ctx) :
-    parse (f + 1) (.arg l ty) st c =
+theorem parse_arg_eq (f : Nat) (l : String) (ty : VTy) (nm : String) (help : Option String) (st : List Arg) (c : Ctx) :
+    parse (f + 1) (.arg l ty nm help) st c =
       match popArg st c with
-      | none => .error (.missing st)
+      | none => .error (.missing st ("Missing argument \"" ++ nm ++ "\"."))
       | some (a, st') =>
         match convert ty a.2 with
         | some v => .ok (st', [(l, v)], [(a.1, l)])
-        | none => .error .other := by
+        | none => .error (.other ("Failed to convert \"" ++ a.2 ++ "\" to " ++ prettyType ty ++ " for argument \"" ++ nm ++ "\".")) := by
   simp only [parse]; rfl
 
-theorem parse_flag_eq (f : Nat) (l : String) (sh : Option String) (lg : String) (act inact : Val) (st : List Arg) (c : Ctx) :
-    parse (f + 1) (.flag l sh lg act inact) st c = parseFlag l sh lg act inact st := by
+theorem parse_flag_eq (f : Nat) (l : String) (sh : Option String) (lg : String) (act inact : Val) (help : Option String) (st : List Arg) (c : Ctx) :
+    parse (f + 1) (.flag l sh lg act inact help) st c = parseFlag l sh lg act inact st := by
   simp only [parse]
 
-theorem parse_opt_eq (f : Nat) (l : String) (sh : Option String) (lg : String) (d : Option Val) (ty : VTy) (st : List Arg) (c : Ctx) :
-    parse (f + 1) (.opt l sh lg d ty) st c = parseOpt l sh lg d ty st := by
+theorem parse_opt_eq (f : Nat) (l : String) (sh : Option String) (lg : String) (d : Option Val) (ty : VTy) (help : Option String) (st : List Arg) (c : Ctx) :
+    parse (f + 1) (.opt l sh lg d ty help) st c = parseOpt l sh lg d ty st := by
   simp only [parse]
 
 theorem parse_unit_eq (f : Nat) (l : String) (st : List Arg) (c : Ctx) :
-    parse (f + 1) (.unit l) st c = if st.isEmpty then .ok (st, [(l, .unit)], []) else .error .other := by
+    parse (f + 1) (.unit l) st c = if st.isEmpty then .ok (st, [(l, .unit)], []) else .error (.other "Excess arguments") := by
   simp only [parse]
 
 theorem parse_unitSwitch_eq (f : Nat) (l : String) (sh : Option String) (lg : String) (st : List Arg) (c : Ctx) :
@@ -38,13 +38,13 @@ theorem parse_unitSwitch_eq (f : Nat) (l : String) (sh : Option String) (lg : St
       | .ok (st', r, lg') =>
         match r with
         | [(_, .bool true)] => .ok (st', [(l, .unit)], lg')
-        | _ => .error (.missing st') := by
+        | _ => .error (.missing st' ("Missing flag " ++ longOrShort lg sh ++ ".")) := by
   simp only [parse]; rfl
 
 theorem parse_optional_eq (f : Nat) (q : OP) (st : List Arg) (c : Ctx) :
     parse (f + 1) (.optional q) st c =
       match parse f q st c with
-      | .error (.missing _) => .ok (st, q.labels.map fun l => (l, .none), [])
+      | .error (.missing _ _) => .ok (st, q.labels.map fun l => (l, .none), [])
       | .error e => .error e
       | .ok (st', r, lg) => .ok (st', r.map fun (l, v) => (l, .some v), lg) := by
   simp only [parse]; rfl
@@ -52,7 +52,7 @@ theorem parse_optional_eq (f : Nat) (q : OP) (st : List Arg) (c : Ctx) :
 theorem parse_many_eq (f : Nat) (q : OP) (st : List Arg) (c : Ctx) :
     parse (f + 1) (.many q) st c =
       match parse f q st c with
-      | .error (.missing _) => .ok (st, q.labels.map fun l => (l, .list []), [])
+      | .error (.missing _ _) => .ok (st, q.labels.map fun l => (l, .list []), [])
       | .error e => .error e
       | .ok (st', r, lg) =>
         match parse f (.many q) st' c with
@@ -81,19 +81,19 @@ theorem parse_sum_eq (f : Nat) (l : String) (a b : OP) (st : List Arg) (c : Ctx)
         | .error e2 => .error (combineErrors e1 e2) := by
   simp only [parse]; rfl
 
-theorem parse_commands_eq (f : Nat) (common : OP) (subs : List (String × String × OP)) (st : List Arg) (c : Ctx) :
+theorem parse_commands_eq (f : Nat) (common : OP) (subs : Subs) (st : List Arg) (c : Ctx) :
     parse (f + 1) (.commands common subs) st c =
       match splitNext st common.optionNames with
-      | none => .error (.missing st)
+      | none => .error (.missing st ("No command specified from " ++ showList (subs.map Prod.fst)))
       | some (first, name, second) =>
         match findSub name.2 subs with
-        | none => .error .other
+        | none => .error (.other ("Invalid command " ++ name.2))
         | some (tag, q) =>
           match parse f common first common.optionNames with
           | .error .diverge => .error .diverge
-          | .error _ => .error .other
+          | .error e => .error (.other e.msg)
           | .ok (rest, ro, lgo) =>
-            if !rest.isEmpty then .error .other
+            if !rest.isEmpty then .error (.other (leftoverText rest))
             else match parse f q second q.optionNames with
               | .error e => .error e
               | .ok (st', rq, lgq) =>
